@@ -807,3 +807,52 @@ func uniq(s []string) []string {
 	}
 	return out
 }
+
+// codecExempt: owners of a ToBytes/FromBytes method that are not protobuf codecs of an object.
+var codecExempt = map[string]string{
+	"api:DynamicArg": "RPC argument conversion (JSON value -> raw contract argument bytes), no decoder, not an object encoding",
+}
+
+// scanCodecOwners lists "<dir>:<Type>" for every method named ToBytes or FromBytes anywhere in the repository
+// (non-test files), so that a codec added in a package the harness does not know about is noticed.
+func scanCodecOwners(root string) ([]string, error) {
+	var out []string
+	fset := token.NewFileSet()
+	err := filepath.Walk(root, func(p string, fi os.FileInfo, err error) error {
+		if err != nil {
+			return err
+		}
+		if fi.IsDir() {
+			n := fi.Name()
+			if n == ".git" || n == "node_modules" || n == "testdata" || n == "testdata2" || n == "datadir" {
+				return filepath.SkipDir
+			}
+			return nil
+		}
+		n := fi.Name()
+		if !strings.HasSuffix(n, ".go") || strings.HasSuffix(n, "_test.go") || strings.HasSuffix(n, ".pb.go") || strings.HasPrefix(n, "zz_verif") {
+			return nil
+		}
+		f, err := parser.ParseFile(fset, p, nil, parser.SkipObjectResolution)
+		if err != nil {
+			return nil // not our business here; the build would fail first
+		}
+		rel, _ := filepath.Rel(root, filepath.Dir(p))
+		for _, d := range f.Decls {
+			fd, ok := d.(*ast.FuncDecl)
+			if !ok || fd.Recv == nil || len(fd.Recv.List) == 0 || (fd.Name.Name != "ToBytes" && fd.Name.Name != "FromBytes") {
+				continue
+			}
+			rt := fd.Recv.List[0].Type
+			if st, ok := rt.(*ast.StarExpr); ok {
+				rt = st.X
+			}
+			if id, ok := rt.(*ast.Ident); ok {
+				out = append(out, rel+":"+id.Name)
+			}
+		}
+		return nil
+	})
+	sort.Strings(out)
+	return uniq(out), err
+}
